@@ -71,7 +71,7 @@ Print Assumptions c02_bufsize_pair.
     filled from, on every rank (so bufferSize covers the block of every layout that occurs as the later member of
     an enumerated pair, besides the first layout) *)
 Theorem c02_pair_bufsize_ge_size : forall N nprocs coords l1 l2 : list nat,
-  length l2 = length l1 -> NoDup l1 -> NoDup l2 ->
+  length l2 = length l1 -> NoDup l2 ->
   (forall a, a < length l1 -> In (nth a l2 0) l1) ->
   length nprocs <= length l1 ->
   (forall a, 0 < np_at nprocs a) -> (forall a, rk_at coords a < np_at nprocs a) ->
